@@ -13,9 +13,8 @@ def load_miros():
     global _loaded
     if _loaded:
         return
-    d = tempfile.mkdtemp(prefix="mcpyc-")
-    sys.pycache_prefix = d
-    atexit.register(shutil.rmtree, d, True)
+    d = scratch_dir()
+    sys.pycache_prefix = os.path.join(d, "pycache")
     sys.dont_write_bytecode = True
     sys.path.insert(0, REPO)
     import miros  # noqa
@@ -24,6 +23,24 @@ def load_miros():
         print("TOOLING-ERROR miros imported from %s, wanted %s" % (got, REPO))
         sys.exit(2)
     _loaded = True
+
+
+_SCRATCH = [None, None]
+
+
+def scratch_dir():
+    """one scratch directory per check run, made by the process that starts the run (forked workers inherit the path);
+    removed by cleanup_scratch() - the CLI ends with os._exit, so atexit handlers would never run"""
+    if _SCRATCH[0] is None:
+        _SCRATCH[0] = tempfile.mkdtemp(prefix="mc-run-")
+        _SCRATCH[1] = os.getpid()
+    return _SCRATCH[0]
+
+
+def cleanup_scratch():
+    if _SCRATCH[0] is not None and _SCRATCH[1] == os.getpid():
+        shutil.rmtree(_SCRATCH[0], True)
+        _SCRATCH[0] = None
 
 
 def seed():
